@@ -173,6 +173,7 @@ func (t *Term) S64() int64 { // sign-extended from sort width
 type TermStore struct {
 	tab  map[string]*Term
 	convMemo map[int]bool
+	noPromote bool
 	next int
 	// ordered list of declared symbols
 	vars []*Term
@@ -965,6 +966,9 @@ func (ts *TermStore) dyConv(t *Term) bool {
 // promote: when two exact-IEEE operands are both constant selections (not both plain constants),
 // move the computation to the dyadic representation
 func (ts *TermStore) promote(a, b *Term) (*Term, *Term) {
+	if ts.noPromote {
+		return a, b
+	}
 	if a.sort == SF64 && b.sort == SF64 && !(a.IsConst() && b.IsConst()) && ts.dyConv(a) && ts.dyConv(b) {
 		return ts.toDy(a), ts.toDy(b)
 	}
@@ -1014,6 +1018,15 @@ func (ts *TermStore) FSub(a, b *Term) *Term {
 func (ts *TermStore) FMul(a, b *Term) *Term {
 	if a.IsConst() && b.IsConst() && a.sort == SF64 && b.sort == SF64 {
 		return ts.F64C(a.F64() * b.F64())
+	}
+	// x * 1.0 is x for every x (including NaN, infinities and signed zeros)
+	if a.sort == SF64 && b.sort == SF64 {
+		if a.IsConst() && a.cu == 0x3ff0000000000000 {
+			return b
+		}
+		if b.IsConst() && b.cu == 0x3ff0000000000000 {
+			return a
+		}
 	}
 	if isDyPair(a, b) {
 		// one side must be a constant
@@ -1237,6 +1250,22 @@ type evalCtx struct {
 	m    Model
 	memo map[int]evalVal
 	ufs  map[string][]ufApp
+	// all uninterpreted-function applications emitted so far (by name), so that an application
+	// without a model value is evaluated congruently with those the model does define
+	known     map[string][]*Term
+	preloaded map[string]bool
+}
+
+func (e *evalCtx) preload(name string) {
+	if e.preloaded[name] {
+		return
+	}
+	e.preloaded[name] = true
+	for _, app := range e.known[name] {
+		if _, ok := e.m[ufAuxName(app)]; ok {
+			e.eval(app)
+		}
+	}
 }
 type evalVal struct {
 	u  uint64   // bool/bv/f64 bits
@@ -1248,7 +1277,7 @@ type ufApp struct {
 }
 
 func newEvalCtx(m Model) *evalCtx {
-	return &evalCtx{m: m, memo: map[int]evalVal{}, ufs: map[string][]ufApp{}}
+	return &evalCtx{m: m, memo: map[int]evalVal{}, ufs: map[string][]ufApp{}, preloaded: map[string]bool{}}
 }
 
 func b2u(b bool) uint64 {
@@ -1394,6 +1423,19 @@ func (e *evalCtx) eval1(t *Term) evalVal {
 		for i := range t.args {
 			args[i] = a(i)
 		}
+		if mv, ok := e.m[ufAuxName(t)]; ok {
+			// the model's own value for this application is authoritative
+			v := evalVal{u: maskW(mv, widthOrBool(t.sort))}
+			if t.sort == SDy {
+				v = evalVal{bi: big.NewInt(int64(mv))}
+			}
+			if t.sort == SF64 {
+				v = evalVal{u: canonNaN(math.Float64frombits(mv))}
+			}
+			e.ufs[t.name] = append(e.ufs[t.name], ufApp{args, v})
+			return v
+		}
+		e.preload(t.name)
 		for _, app := range e.ufs[t.name] {
 			same := true
 			for i := range args {
@@ -1410,6 +1452,9 @@ func (e *evalCtx) eval1(t *Term) evalVal {
 			}
 		}
 		var v evalVal
+		if t.sort == SDy {
+			v = evalVal{bi: big.NewInt(0)}
+		}
 		if mv, ok := e.m[ufAuxName(t)]; ok {
 			v = evalVal{u: maskW(mv, widthOrBool(t.sort))}
 			if t.sort == SF64 {
